@@ -11,7 +11,8 @@ expression ``string.whitespace + '<literal>'``):
                     insertion of Source.__init__ (template comparison, no holes)
 * supp/assistant.py the prefix expression ``re.split(<regex>, line)[-1]`` (only r'\\W' is modelled),
                     the ``from`` branch: its condition strings and the two rpartition separators,
-                    the proposal expression ``sorted(n for n in names if not marked(n))``
+                    the proposal expression ``sorted(n for n in names if not marked(n))``,
+                    the body of ``location`` (its ``loc`` projection un-shifts positions right of the cursor) and ``_loc``
 
 Anything else raises ``Untranslatable`` -- the caller treats that as a broken tie, not a crash.
 """
@@ -183,6 +184,66 @@ def assist(project, source, position, filename=None, debug=False):
         return prefix, list_packages(project, package, filename)
 '''
 
+LOCATION = '''
+def location(project, source, position, filename=None, debug=False):
+    source = Source(source, filename, position)
+
+    debug and print_dump(source.tree)
+    scope = extract_scope(source, project)
+
+    result = []
+    marked_import = get_marked_import(source.tree)
+    ctx = EvalCtx(project)
+
+    if marked_import:
+        head, tail = marked_import
+        try:
+            if tail is None:
+                name = project.get_nmodule(head, filename)
+            else:
+                if not tail:
+                    full = head
+                    head, tail = split_pkg(head)
+                else:
+                    full = join_pkg(head, tail)
+
+                module = project.get_nmodule(head, filename)
+                name = module.get_attr(ctx, tail)
+                if not name:
+                    name = project.get_nmodule(full, filename)
+        except ImportError:
+            name = None
+
+        if name:
+            result = ctx.declarations(name, [])
+    else:
+        node = get_marked_name(source.tree) or get_marked_atribute(source.tree)
+        if node:
+            result = ctx.declarations(node, [])
+
+    def loc(n):
+        ln, col = n.declared_at
+        if n.filename == source.filename and ln == position[0] and col > position[1]:
+            col -= len(SOURCE_MARK)
+        return _loc((ln, col), n.filename)
+
+    locs = []
+    for r in result:
+        if isinstance(r, list):
+            alts = [loc(n) for n in r if hasattr(n, 'declared_at')]
+            if alts:
+                locs.append(alts)
+        elif hasattr(r, 'declared_at'):
+            locs.append(loc(r))
+
+    return locs
+'''
+
+LOC_HELPER = '''
+def _loc(location, filename):
+    return {'loc': location, 'file': filename}
+'''
+
 ASSIST_RETURN = "return prefix, sorted(n for n in names if not marked(n))"
 
 
@@ -344,6 +405,8 @@ def translate(repo):
     same_body(find_def(find_def(util.body, 'Source', (ast.ClassDef,)).body, '__init__'), SOURCE_INIT, 'Source.__init__')
 
     from_kw, import_kw, sep1, sep2, regex = assist_parts(find_def(assistant.body, 'assist'))
+    same_body(find_def(assistant.body, 'location'), LOCATION, 'location')
+    same_body(find_def(assistant.body, '_loc'), LOC_HELPER, '_loc')
     if regex not in REGEX_SHAPES:
         raise Untranslatable('assist: prefix regex %r is not one of the modelled shapes %r' % (regex, sorted(REGEX_SHAPES)))
 
